@@ -31,6 +31,7 @@ type Contract struct {
 	Modifies []string
 	Sweep    []string // properties that claim the safe:* obligations of this function
 	PrunePaths bool
+	SliceHavoc bool
 	Modular  bool     // callers use the contract instead of inlining the body
 	Trusted  bool     // contract assumed, body not verified (must be justified in DESIGN.md; listed in evidence)
 	Params   []string // optional names for parameters/results used by the clauses: "params(a,b) results(r,err)"
@@ -86,7 +87,7 @@ type SpecDB struct {
 }
 
 var clauseKeywords = map[string]bool{"func": true, "loop": true, "requires": true, "ensures": true, "modifies": true,
-	"sweep": true, "modular": true, "trusted": true, "invariant": true, "pure": true, "unroll": true, "names": true, "let": true, "end": true, "sums": true, "demands": true, "covers": true, "promote": true, "hint": true, "lemma": true, "prunepaths": true, "asserts": true}
+	"sweep": true, "modular": true, "trusted": true, "invariant": true, "pure": true, "unroll": true, "names": true, "let": true, "end": true, "sums": true, "demands": true, "covers": true, "promote": true, "hint": true, "lemma": true, "prunepaths": true, "asserts": true, "slicehavoc": true}
 
 func ParseSpecs(lines []SpecLine) *SpecDB {
 	db := &SpecDB{Contracts: map[string]*Contract{}, Pures: map[string]*PureDef{}}
@@ -215,6 +216,11 @@ func ParseSpecs(lines []SpecLine) *SpecDB {
 			cur.Sweep = append(cur.Sweep, parseProps(it.rest)...)
 		case "sums":
 			cur.Sums = true
+		case "slicehavoc":
+			// stores through &slice[i] are over-approximated in this function: the contents (not the lengths) of every live slice of that
+			// element type are havocked (backing-array aliasing is not modelled). Sound for whatever is proved; clauses that depend on the
+			// written contents cannot be proved and must be marked {assumed}.
+			cur.SliceHavoc = true
 		case "prunepaths":
 			// ask the solver whether a path is feasible when it reaches a loop with invariants; infeasible paths are dropped (sound:
 			// an unsatisfiable path condition has no executions). Used where preconditions rule out most syntactic paths.
